@@ -149,6 +149,7 @@ func main() {
 		fs.IntVar(&o.Callers, "callers", 3, "runtime goroutines per run")
 		fs.IntVar(&o.Requests, "requests", 12, "requests per goroutine")
 		fs.BoolVar(&o.Updates, "updates", false, "unsolicited updates")
+		fs.BoolVar(&o.SlowUpd, "slowupd", false, "some update callbacks outlast the request timeout, some of their plugins leave meanwhile")
 		fs.BoolVar(&o.Leave, "leave", false, "plugins leave during the run")
 		fs.BoolVar(&o.Vetoes, "vetoes", false, "handlers sometimes return errors")
 		fs.BoolVar(&o.NoBlocks, "noblocks", false, "self-test: omit the sync blocks")
